@@ -101,7 +101,7 @@ def fixRm (ni idx pnum : Nat) : CPos → CPos
     if i = ni then
       if j = idx then
         if idx ≠ 0 ∧ idx = pnum then .at i (j - 1) (-1) else .at i j 1
-      else if j > idx then .at i (j - 1) 0 else .at i j 0
+      else if j > idx then .at i (j - 1) s else .at i j s
     else .at i j s
   | p => p
 
